@@ -266,7 +266,7 @@ def run_harness(config, cases, workdir, poison=0xA5, tag=""):
         with open(cf) as fi, open(of, "w") as fo:
             # WATCHDOG ("always terminates"): the harness flushes one line per case; when the output has not grown for
             # VERIF_STALL_S seconds the case being processed is recorded as `crash:timeout` and the run resumes behind it
-            stall = float(os.environ.get("VERIF_STALL_S", "60"))
+            stall = float(os.environ.get("VERIF_STALL_S", "30"))
             pr = subprocess.Popen([binp, "run"], stdin=fi, stdout=fo, stderr=subprocess.DEVNULL,
                                   env=dict(ENV, VERIF_POISON=str(poison)))
             last_size, last_t = -1, time.time()
@@ -297,7 +297,7 @@ def run_harness(config, cases, workdir, poison=0xA5, tag=""):
         outs.extend(got)
         sig = -r.returncode if r.returncode < 0 else r.returncode
         outs.append("crash:timeout" if timed_out else "crash:%d" % sig)
-        crashes += 50 if timed_out else 1       # at most four stalls per run
+        crashes += 100 if timed_out else 1      # at most two stalls per run
         start = len(outs)
         part += 1
         if crashes > 200:
